@@ -4,6 +4,7 @@
 -/
 import MajoranaVerif.Model.Mvp60Class
 import MajoranaVerif.Proofs.Mvp60Fast
+import MajoranaVerif.Proofs.Mvp60Flush
 open GoInt
 
 namespace Proofs.Mvp60SlWitness
@@ -100,6 +101,26 @@ theorem br_seq : obsR (Model.Seq.runMvp1 brApp ⟨ctx0, 0⟩ 40).halt (Model.Seq
 
 theorem br_p1 : obsR (run brApp ctx0 1 1 5000).halt (run brApp ctx0 1 1 5000).final.ctx =
     (some .ret, [0#32, 0#32, 6#32, 0#32, 0#32, 0#32]) := by
+  rw [← Proofs.Mvp60Fast.runFast_eq_run]; decide +kernel
+
+theorem br_p2 : obsR (run brApp ctx0 2 2 5000).halt (run brApp ctx0 2 2 5000).final.ctx =
+    (some .ret, [0#32, 0#32, 6#32, 0#32, 0#32, 0#32]) := by
+  rw [← Proofs.Mvp60Fast.runFast_eq_run]; decide +kernel
+
+theorem br_p4 : obsR (run brApp ctx0 4 4 5000).halt (run brApp ctx0 4 4 5000).final.ctx =
+    (some .ret, [0#32, 0#32, 6#32, 0#32, 0#32, 0#32]) := by
+  rw [← Proofs.Mvp60Fast.runFast_eq_run]; decide +kernel
+
+/-- a program in which an instruction behind a taken branch executes in the tick of the flush (two units):
+`addi t1, zero, 7; beq zero, zero, l1; addi t0, zero, 5; l1: addi t2, zero, 9` (`Proofs.Mvp60Flush.wpApp`) -/
+theorem wp_class : BranchOnly Proofs.Mvp60Flush.wpApp = true := by decide
+
+theorem wp_seq : obsR (Model.Seq.runMvp1 Proofs.Mvp60Flush.wpApp ⟨ctx0, 0⟩ 20).halt
+    (Model.Seq.runMvp1 Proofs.Mvp60Flush.wpApp ⟨ctx0, 0⟩ 20).final.ctx = (some .offEnd, [0#32, 0#32, 0#32, 0#32, 7#32, 9#32]) := by
+  decide +kernel
+
+theorem wp_p2 : obsR (run Proofs.Mvp60Flush.wpApp ctx0 2 2 2000).halt (run Proofs.Mvp60Flush.wpApp ctx0 2 2 2000).final.ctx =
+    (some .offEnd, [0#32, 0#32, 0#32, 0#32, 7#32, 9#32]) := by
   rw [← Proofs.Mvp60Fast.runFast_eq_run]; decide +kernel
 
 end Proofs.Mvp60SlWitness
